@@ -11,6 +11,7 @@ import z3
 from contracts.common import *  # noqa
 from contracts import common, deferred_c, insn
 from contracts.deferred_c import *  # noqa
+from contracts.symbols_c import unit_define  # noqa
 from contracts.insn import unit_rm_encode, unit_offset_encode  # noqa
 from pyvc import driver
 
@@ -108,6 +109,9 @@ def units(tier):
     for bits, uns in ((8, False), (6, True)):
         for sh in ("sym", ".", "sym+k", ".-k"):
             us.append(("offset[%d,%s]" % (bits, sh), "unit_offset_encode", dict(bits=bits, unsigned=uns, shape=sh, lazy=True)))
+    # a label is exactly the address it is given - base + offset, never reduced modulo 2^16 on the way into the symbol table
+    for ak in ("lazy", "int", "poly-const"):
+        us.append(("define[label,%s]" % ak, "unit_define", dict(what="label", local=False, is_extern=False, extern_all=False, addr_kind=ak)))
     for name, fn, kw in deferred_c.all_units():
         if name.startswith("poly-wait") or name.startswith("poly[") and ("x-x" in name or "x-y" in name or name.startswith("poly[sub") or "x+n" in name or "n+x" in name):
             us.append((name, fn, kw))
@@ -132,6 +136,13 @@ def replay(o, tree):
         return c01.replay_rm(cfg, o.get("witness") or {}, tree)
     if cfg.get("kind") == "offset":
         return c04.replay_offset(cfg, o.get("witness") or {}, tree)
+    if cfg.get("kind") == "define":
+        body = "nop\nnop\nnop\nnop\nnop\nl: mov l, r0\nbr l\nsob r1, l\n"
+        bases = ["1000", "40000", "177700", "177770", "-10"]
+        jobs = [{"kind": "asm", "sources": [".link %s\n%s" % (b_, body)]} for b_ in bases] + [{"kind": "asm", "sources": [". = 177770\n" + body]}]
+        res = driver.native(jobs, tree)
+        obs = [[r["status"], r.get("code_hex")] for r in res]
+        return dict(jobs=jobs, expected="position-independent code: identical bytes at every base, also where labels lie past 0o177777", observed=obs, reproduced=len(set(map(str, obs))) != 1)
     if cfg.get("kind") == "poly-nested":
         return deferred_c.replay_poly_nested(cfg, o.get("witness") or {}, tree)
     if cfg.get("kind") == "poly-selfref":
